@@ -144,6 +144,7 @@ type peerConn struct {
 	sendHeaders bool
 	pending     []peerReq
 	sentLog     [][]byte // every message written to the node on this connection
+	sentAt      []int64
 	recvLog     []wire.Message
 	recvAt      []int64
 	announced   map[string]int64 // block name -> total bytes written when its header had been sent
@@ -451,6 +452,7 @@ func (w *World) sendRaw(pc *peerConn, b []byte) {
 	pc.conn.Write(b)
 	pc.written += int64(len(b))
 	pc.sentLog = append(pc.sentLog, b)
+	pc.sentAt = append(pc.sentAt, w.S.Now)
 }
 
 // onNodeMsg: the peer's reaction to one message from the node. Handshake and pings are answered
